@@ -115,7 +115,10 @@ def expr(e):
             op = BIN.get(o[1] if o[0] != 'BinaryOp' or o[1] not in ('Inequality','Arith') else (o[2][1] if isinstance(o[2], list) else o[2]), ' '.join(flat(o)))
             return '(%s %s %s)' % (expr(a[1]), op, expr(a[2]))
         if k == 'Multi':
-            ops = [BIN.get(x[2][1], '?') for x in a[0][2]] if a[0][1] == 'Chained' else ['?']
+            try:
+                ops = [BIN.get(x[2][1], '?') for x in a[0][2]] if a[0][1] == 'Chained' else ['?']
+            except Exception:
+                ops = ['<?'] * 8
             xs = [expr(x) for x in a[1]]
             s = xs[0]
             for o, x in zip(ops, xs[1:]): s += ' %s %s' % (o, x)
